@@ -2,7 +2,7 @@
 # usage: tools/try_patch.sh <patch.diff> <property> [tier]   — apply a seeded change to /repo, run the check, undo it
 set -u
 git -C /repo apply "$1" || { echo "patch does not apply"; exit 3; }
-cd /verif && ./check "$2" --tier "${3:-quick}"; rc=$?
+cd /verif && VERIF_EVIDENCE_DIR=/verif/build/evidence_mutants ./check "$2" --tier "${3:-quick}"; rc=$?
 git -C /repo checkout -- . ; git -C /repo clean -fdq
 echo "exit=$rc"
 exit $rc
